@@ -164,9 +164,10 @@ def gen_item(rng, names=None, want_enum=None, allow_attrs=True, plain=False, abs
         if not copy:
             c += [STRING, f'{VEC}<i8>']
         if has_T:
-            c += [T, T, f'{OPT}<{T}>', f'({T}, i8)', f'::core::marker::PhantomData<{T}>']
+            c += [T, T, f'{OPT}<{T}>', f'({T}, i8)', f'::core::marker::PhantomData<{T}>', f'::core::option::Option<{T}>',
+                  f'::core::option::Option<::core::option::Option<{T}>>']
             if not copy:
-                c += [f'{VEC}<{T}>', f'{BOX}<{T}>']
+                c += [f'{VEC}<{T}>', f'{BOX}<{T}>', f'::std::vec::Vec<{T}>']
         if has_U:
             c += [U, f'({T}, {U})']
         if gkind == 'Tsrc':
